@@ -278,6 +278,12 @@ func run(sc *scenario) (coq string, tags []string, err error) {
 			o.Obs = map[string]any{"code": code, "err": fmt.Sprint(e)}
 			terms = append(terms, fmt.Sprintf("OPutBatch %d %s %d %s", o.WS, kit.List(its), code, kit.List(r.rec.calls)))
 			tagset[fmt.Sprintf("putbatch:%d", code)] = true
+			if n := len(o.Items); n >= 255 {
+				tagset["putbatch:rows>=255"] = true
+				if n%256 == 0 {
+					tagset["putbatch:rows%256=0"] = true
+				}
+			}
 		case "get":
 			v := sc.Views[o.View]
 			var n uint64
